@@ -203,12 +203,24 @@ class ComplementProjector(LinearOperator):
     def _apply(self: LinearOperator, v: np.ndarray) -> np.ndarray:
         return v - self._vecs @ (self._left_vecs.conj().T @ v)
 
-    _matvec = _matmat = _apply
+    _matmat = _apply
 
     def _apply_left(self: LinearOperator, v: np.ndarray) -> np.ndarray:
         return v - self._left_vecs @ (self._vecs.conj().T @ v)
 
-    _rmatvec = _rmatmat = _apply_left
+    _rmatmat = _apply_left
+
+    def _matvec(self: LinearOperator, v: np.ndarray) -> np.ndarray:
+        # scipy >= 1.18 passes a batch of row vectors of shape (..., N); older versions
+        # a vector (N,) or a column (N, 1).
+        if v.ndim < 2 or v.shape == (self.shape[1], 1):
+            return self._apply(v)
+        return np.swapaxes(self._apply(np.swapaxes(v, -1, -2)), -1, -2)
+
+    def _rmatvec(self: LinearOperator, v: np.ndarray) -> np.ndarray:
+        if v.ndim < 2 or v.shape == (self.shape[0], 1):
+            return self._apply_left(v)
+        return np.swapaxes(self._apply_left(np.swapaxes(v, -1, -2)), -1, -2)
 
     def _adjoint(self: LinearOperator) -> LinearOperator:
         if self._adjoint_operator is None:
